@@ -104,8 +104,8 @@ class _SecStream(Stream):
         # longer messages around block boundaries and random sizes
         # 4096 octets = 256 AES blocks = 1024 keystream words: the first length at which a block / word counter needs
         # its second octet; a NAS message may be longer (up to 2^16 octets)
-        big = [131, 255, 256, 257, 512, 1024, 4097, 4113] if quick else \
-              [131, 255, 256, 257, 511, 512, 513, 1023, 1024, 1025, 2047, 2048, 2049, 4093, 4094, 4095, 4096, 4097, 4111, 4112, 4113, 8192, 9001, 20000]     # (a 65535-element list literal overflows coqc's parser stack)
+        big = [131, 255, 256, 257, 512, 1024, 4097, 4113, 8193] if quick else \
+              [131, 255, 256, 257, 511, 512, 513, 1023, 1024, 1025, 2047, 2048, 2049, 4093, 4094, 4095, 4096, 4097, 4111, 4112, 4113, 8191, 8192, 8193, 9001, 16384, 16385, 20000]     # (a 65535-element list literal overflows coqc's parser stack)
         nrand = 3 if quick else 120
         for n in big + [rng.range(132, 700 if quick else 4096) for _ in range(nrand)]:
             for alg in self.algs_main:
